@@ -131,7 +131,7 @@ theorem status_line (g : Cfg) (p : P) (tok : Bytes) (pr code reason rest : Bytes
     (hl : code.length = 3) (hd : code.all isNum = true)
     (hr : reason = [] ∨ ∃ r0 rs, reason = r0 :: rs ∧ isAlpha r0 = true ∧ ∀ c ∈ rs, c ≠ CR ∧ c ≠ LF) :
     ∃ tok', specFeed (M g) p tok (pr ++ [SP] ++ code ++ [SP] ++ reason ++ [CR, LF] ++ rest) acc =
-      specFeed (M g) { p with st := .headerKeyBefore } tok' rest
+      specFeed (M g) { p with st := .headerKeyBefore, noBody := bodilessStatus (decimal code) } tok' rest
         (acc ++ [.proto pr, .status (decimal code) (trimRightSpaces reason)]) := by
   have hpc := parse_code code hl hd
   cases pr with
@@ -168,16 +168,16 @@ theorem status_line (g : Cfg) (p : P) (tok : Bytes) (pr code reason rest : Bytes
         (by simp [byteStep, ok, (num_facts c2 hc2).1, hc2])]
   simp only [nextTok_keep, List.append_nil, List.cons_append, List.nil_append]
   -- SP
-  rw [spec_step g _ _ SP _ _ { p with st := .statusBefore, statusCode := decimal [c0, c1, c2] } .keep [] (by simp [block])
+  rw [spec_step g _ _ SP _ _ { p with st := .statusBefore, statusCode := decimal [c0, c1, c2], noBody := bodilessStatus (decimal [c0, c1, c2]) } .keep [] (by simp [block])
         (by simp [byteStep, ok, hpc])]
   simp only [nextTok_keep, List.append_nil]
   rcases hr with hr | ⟨r0, rs, hr, hr0, hrs⟩
   · subst hr
     simp only [List.nil_append]
     -- CR right away: empty reason phrase
-    rw [spec_step g _ _ CR _ _ { p with st := .statusLF } .keep [.status (decimal [c0, c1, c2]) []] (by simp [block])
+    rw [spec_step g _ _ CR _ _ { p with st := .statusLF, noBody := bodilessStatus (decimal [c0, c1, c2]) } .keep [.status (decimal [c0, c1, c2]) []] (by simp [block])
           (by simp [byteStep, ok, hsc, CR, SP, LF])]
-    rw [spec_step g _ _ LF _ _ { p with st := .headerKeyBefore } .keep [] (by simp [block])
+    rw [spec_step g _ _ LF _ _ { p with st := .headerKeyBefore, noBody := bodilessStatus (decimal [c0, c1, c2]) } .keep [] (by simp [block])
           (by simp [byteStep, ok])]
     refine ⟨?w, ?h⟩
     case h =>
@@ -187,15 +187,15 @@ theorem status_line (g : Cfg) (p : P) (tok : Bytes) (pr code reason rest : Bytes
   · subst hr
     simp only [List.cons_append]
     have ⟨a1, a2, a3⟩ := alpha_facts r0 hr0
-    rw [spec_step g _ _ r0 _ _ { p with st := .status, statusCode := decimal [c0, c1, c2] } .here [] (by simp [block])
+    rw [spec_step g _ _ r0 _ _ { p with st := .status, statusCode := decimal [c0, c1, c2], noBody := bodilessStatus (decimal [c0, c1, c2]) } .here [] (by simp [block])
           (by simp [byteStep, ok, a1, a2, a3, hr0])]
     simp only [nextTok_here, List.append_nil]
-    rw [scan_keep g { p with st := .status, statusCode := decimal [c0, c1, c2] } (by simp [block]) rs
+    rw [scan_keep g { p with st := .status, statusCode := decimal [c0, c1, c2], noBody := bodilessStatus (decimal [c0, c1, c2]) } (by simp [block]) rs
           (by intro c hc tok'; have := hrs c hc; simp [byteStep, ok, this.1, this.2])]
-    rw [spec_step g _ _ CR _ _ { p with st := .statusLF } .keep
+    rw [spec_step g _ _ CR _ _ { p with st := .statusLF, noBody := bodilessStatus (decimal [c0, c1, c2]) } .keep
           [.status (decimal [c0, c1, c2]) (trimRightSpaces ([r0] ++ rs))] (by simp [block])
           (by simp [byteStep, ok, hsc, hstatus, CR, LF])]
-    rw [spec_step g _ _ LF _ _ { p with st := .headerKeyBefore } .keep [] (by simp [block])
+    rw [spec_step g _ _ LF _ _ { p with st := .headerKeyBefore, noBody := bodilessStatus (decimal [c0, c1, c2]) } .keep [] (by simp [block])
           (by simp [byteStep, ok])]
     refine ⟨?w2, ?h2⟩
     case h2 =>
